@@ -469,6 +469,129 @@ theorem C12_lora_frequency_error (raw : UInt32) (h : raw.toNat < 1048576) (bw : 
       rw [abs_lt]
       constructor <;> nlinarith [a.1, a.2, hfl1, hfl2]
 
+/-- the bandwidth a register code realises, as a rational -/
+def bwP (me : Nat × Nat) : Rat := match bwPoint me.1 me.2 with | .fin p => p | _ => 0
+
+theorem bwPoints_fin_all :
+    bwPoints.all (fun me => match bwPoint me.1 me.2 with | .fin p => decide (2604 ≤ p ∧ p ≤ 250000) | _ => false) = true := by
+  decide +kernel
+
+theorem bwPoint_first : (match bwPoint 2 7 with | .fin p => decide (p ≤ 2605) | _ => false) = true := by decide +kernel
+
+theorem bwPoints_fin (me : Nat × Nat) (h : me ∈ bwPoints) :
+    bwPoint me.1 me.2 = .fin (bwP me) ∧ 2604 ≤ bwP me ∧ bwP me ≤ 250000 := by
+  have := List.all_eq_true.mp bwPoints_fin_all me h
+  unfold bwP
+  cases hb : bwPoint me.1 me.2 with
+  | nan => rw [hb] at this; simp at this
+  | inf s => rw [hb] at this; simp at this
+  | fin p => rw [hb] at this; simp at this; exact ⟨rfl, this.1, this.2⟩
+
+/-- the driver's distance measure for a request `q` and a point: `fabsf(bandwidth - point)` -/
+def bwTol (q : Rat) (me : Nat × Nat) : Rat := |rnd 24 (-126) (q + -(bwP me))|
+
+theorem bwTol_model (q : Rat) (h1 : 2600 ≤ q) (h2 : q ≤ 250000) (me : Nat × Nat) (h : me ∈ bwPoints) :
+    F.abs (F.sub b32 (.fin q) (bwPoint me.1 me.2)) = .fin (bwTol q me) ∧
+    |bwTol q me - abs (q - bwP me)| ≤ abs (q - bwP me) * (1 / 16777216) + (2 : Rat) ^ (-(150 : Int)) := by
+  obtain ⟨hb, hlo, hhi⟩ := bwPoints_fin me h
+  have hx : |q + -(bwP me)| ≤ (2 : Rat) ^ (100 : Int) := by
+    have : (250000 : Rat) ≤ (2 : Rat) ^ (100 : Int) := by norm_num
+    rw [abs_le]; constructor <;> linarith
+  obtain ⟨r, e⟩ := round_any (q + -(bwP me)) hx
+  constructor
+  · rw [hb]
+    show F.abs (F.round b32 (q + -(bwP me))) = _
+    rw [r]
+    unfold F.abs bwTol
+    simp only
+    congr 1
+    split
+    · rename_i hn; rw [abs_of_neg hn]
+    · rename_i hn; rw [abs_of_nonneg (not_lt.mp hn)]
+  · unfold bwTol
+    have hsub : q + -(bwP me) = q - bwP me := by ring
+    rw [hsub] at e ⊢
+    exact le_trans (abs_abs_sub_abs_le _ _) e
+
+
+
+/-- the search of `sx127x_fsk_ook_calculate_bw_register` over rationals -/
+def bwStepR (q : Rat) (acc : Rat × UInt8) (me : Nat × Nat) : Rat × UInt8 :=
+  if bwTol q me < acc.1 then (bwTol q me, u8 (me.1 * 8 ||| me.2)) else acc
+
+theorem bw_fold_sim (q : Rat) (h1 : 2600 ≤ q) (h2 : q ≤ 250000) (L : List (Nat × Nat)) (hL : ∀ me ∈ L, me ∈ bwPoints)
+    (a : Rat) (c : UInt8) :
+    L.foldl (fun (acc : F × UInt8) (me : Nat × Nat) =>
+        if F.lt (F.abs (F.sub b32 (.fin q) (bwPoint me.1 me.2))) acc.1 = true
+        then (F.abs (F.sub b32 (.fin q) (bwPoint me.1 me.2)), u8 (me.1 * 8 ||| me.2)) else acc) (.fin a, c)
+      = (.fin (L.foldl (bwStepR q) (a, c)).1, (L.foldl (bwStepR q) (a, c)).2) := by
+  induction L generalizing a c with
+  | nil => rfl
+  | cons x xs ih =>
+    simp only [List.foldl_cons]
+    have hx := (bwTol_model q h1 h2 x (hL x List.mem_cons_self)).1
+    rw [hx]
+    have hlt : F.lt (F.fin (bwTol q x)) (F.fin a) = decide (bwTol q x < a) := rfl
+    rw [hlt]
+    unfold bwStepR
+    by_cases hc : bwTol q x < a
+    · simp only [hc, decide_true, ↓reduceIte]
+      exact ih (fun me hme => hL me (List.mem_cons_of_mem _ hme)) _ _
+    · simp only [hc, decide_false, Bool.false_eq_true, ↓reduceIte]
+      exact ih (fun me hme => hL me (List.mem_cons_of_mem _ hme)) _ _
+
+/-- **C12, receiver bandwidth: the closest point.** For every requested bandwidth in the
+    documented range 2600..250000 Hz (any real number, not only the 21 table values) the register
+    programmed by `sx127x_fsk_ook_rx_set_bandwidth` / `…_set_afc_bandwidth` is the code of one of
+    the 21 bandwidths the chip offers, and no other of them is closer to the request — up to the
+    single-precision rounding of the distances: `|q - p| (1 - 2^-24) ≤ |q - p'| (1 + 2^-24) + 2^-149`
+    for every other point `p'`. -/
+theorem C12_rx_bandwidth_closest (q : Rat) (h1 : 2600 ≤ q) (h2 : q ≤ 250000) :
+    ∃ me ∈ bwPoints, calculateBwRegister (.fin q) = u8 (me.1 * 8 ||| me.2) ∧
+      ∀ me' ∈ bwPoints, |q - bwP me| * (1 - 1 / 16777216) ≤ |q - bwP me'| * (1 + 1 / 16777216) + (2 : Rat) ^ (-(149 : Int)) := by
+  have hsim := bw_fold_sim q h1 h2 bwPoints (fun _ h => h) q 0
+  have hcalc : calculateBwRegister (.fin q) = (bwPoints.foldl (bwStepR q) (q, 0)).2 := by
+    unfold calculateBwRegister
+    simp only
+    rw [hsim]
+  obtain ⟨m1, m2, m3⟩ := foldl_min bwPoints (bwTol q) (fun me => u8 (me.1 * 8 ||| me.2)) q 0
+  have hfold : ∀ (a : Rat) (c : UInt8), bwPoints.foldl (bwStepR q) (a, c) =
+      bwPoints.foldl (fun acc i => if bwTol q i < acc.1 then (bwTol q i, u8 (i.1 * 8 ||| i.2)) else acc) (a, c) := fun _ _ => rfl
+  rw [← hfold] at m1 m2 m3
+  -- the first point beats the initial tolerance
+  have hfirst : ((2, 7) : Nat × Nat) ∈ bwPoints := by decide
+  obtain ⟨_, e0⟩ := bwTol_model q h1 h2 (2, 7) hfirst
+  obtain ⟨_, p0lo, _⟩ := bwPoints_fin (2, 7) hfirst
+  have p0hi : bwP (2, 7) ≤ 2605 := by
+    have := bwPoint_first
+    unfold bwP
+    cases hb : bwPoint 2 7 with
+    | nan => rw [hb] at this; simp at this
+    | inf s => rw [hb] at this; simp at this
+    | fin p => rw [hb] at this; simp at this; exact this
+  have tiny : (2 : Rat) ^ (-(150 : Int)) ≤ 1 / 1000 := by norm_num
+  have hbeat : bwTol q (2, 7) < q := by
+    have a := abs_le.mp e0
+    have habs : |q - bwP (2, 7)| ≤ q - 2590 := by
+      rw [abs_le]; constructor <;> linarith
+    nlinarith [a.2, abs_nonneg (q - bwP (2, 7))]
+  have hne : bwPoints.foldl (bwStepR q) (q, 0) ≠ (q, 0) := by
+    intro e
+    have := m2 (2, 7) hfirst
+    rw [e] at this
+    exact absurd (lt_of_le_of_lt this hbeat) (lt_irrefl _)
+  rcases m3 with e | ⟨i, hi, e⟩
+  · exact absurd e hne
+  · refine ⟨i, hi, by rw [hcalc, e], ?_⟩
+    intro j hj
+    have hij := m2 j hj
+    rw [e] at hij
+    have ei := abs_le.mp (bwTol_model q h1 h2 i hi).2
+    have ej := abs_le.mp (bwTol_model q h1 h2 j hj).2
+    have t2 : (2 : Rat) ^ (-(149 : Int)) = 2 * (2 : Rat) ^ (-(150 : Int)) := by norm_num
+    rw [t2]
+    nlinarith [ei.1, ej.2, hij]
+
 /-- **C12, LoRa bandwidth decode.** The ten bandwidth codes of RegModemConfig1 decode to the
     datasheet's bandwidths in Hz; the six reserved codes are refused. -/
 theorem C12_lora_bandwidth_decode :
